@@ -1174,7 +1174,9 @@ static void do_deliver(ep_t *src, int count, int chunk)
         int og = r0->origin;
         kmatch = (r0->kfp != 0 && r0->kfp == rkey_fp(dst->ssl));
         seqm = dst->dtls ? 1 : (memcmp(r0->seq, dst->ssl->sec.remSeq, 8) == 0);
-        auth = (og == 0 || og == 3 || og == 6) && wsec && kmatch && seqm;
+        /* authentic = sealed by a key holder, bytes untouched, and key + sequence number are the ones
+           the receiver currently expects (a replayed copy delivered in the original's place qualifies) */
+        auth = (og == 0 || og == 3 || og == 4 || og == 5 || og == 6) && wsec && kmatch && seqm;
     }
     for (i = 0; i < count; i++)
     {
@@ -1317,11 +1319,25 @@ static void emit_adv(const char *ev, ep_t *e, const char *fmt, ...)
     emit_end(&g_out);
 }
 
+#include <setjmp.h>
+static jmp_buf g_skip;
+static int g_skip_armed = 0;
+static void emit_adv(const char *ev, ep_t *e, const char *fmt, ...);
+
+/* an adversary action that does not apply in this state (nothing queued, index out of range) is
+   recorded as a no-op so that generated scripts need not know the exact shape of each flight */
+static void skip_action(ep_t *e, const char *why)
+{
+    emit_adv("skip", e, "\"why\":\"%s\"", why);
+    if (g_skip_armed) longjmp(g_skip, 1);
+    die("inapplicable action: %s", why);
+}
+
 static int idx_arg(ep_t *e, const char *s)
 {
     int i = atoi(s);
     if (i < 0) i += e->qn;
-    if (i < 0 || i >= e->qn) die("record index %s out of range (qn=%d)", s, e->qn);
+    if (i < 0 || i >= e->qn) skip_action(e, "index");
     return i;
 }
 
@@ -1361,9 +1377,15 @@ static void cmd_adv(char **tok, int ntok)
         int i = idx_arg(e, tok[2]), off = atoi(tok[3]);
         int x = (int) strtol(tok[4], NULL, 0);
         if (off < 0) off += e->q[i].n;
-        if (off < 0 || off >= e->q[i].n) die("mod offset out of range");
+        if (off < 0 || off >= e->q[i].n) skip_action(e, "offset");
         e->q[i].b[off] ^= (unsigned char) x;
-        e->q[i].origin = 1;
+        e->q[i].origin = (off > 0 && off < rec_hdrlen(e)) ? 7 : 1;   /* 7: version/epoch/length field only */
+        if (!e->q[i].wsec && e->q[i].n > rec_hdrlen(e))
+        {
+            /* unprotected record: what it now claims to be is what the receiver will see */
+            e->q[i].itype = e->q[i].b[0];
+            e->q[i].imsg = e->q[i].b[0] == 22 ? e->q[i].b[rec_hdrlen(e)] : -1;
+        }
         emit_adv("mod", e, "\"idx\":%d,\"off\":%d,\"xor\":%d,\"rlen\":%d", i, off, x, e->q[i].n);
     }
     else if (!strcmp(c, "trunc"))
@@ -1371,7 +1393,7 @@ static void cmd_adv(char **tok, int ntok)
         /* trunc <ep> <idx> <newlen> [fix=1] */
         int i = idx_arg(e, tok[2]), nl = atoi(tok[3]), hl = rec_hdrlen(e);
         if (nl < 0) nl += e->q[i].n;
-        if (nl < 0 || nl > e->q[i].n) die("trunc length out of range");
+        if (nl < 0 || nl > e->q[i].n) skip_action(e, "length");
         e->q[i].n = nl;
         e->q[i].origin = 1;
         if (opt_int(tok, ntok, "fix", 0) && nl >= hl)
@@ -1429,7 +1451,7 @@ static void cmd_adv(char **tok, int ntok)
         unsigned char *body = calloc(1, bl + 16), *out = malloc(bl + 512);
         const char *hx = opt_get(tok, ntok, "body");
         int hst = opt_int(tok, ntok, "hs", -1);
-        if (!to || !to->ssl) die("forge: no peer session");
+        if (!to || !to->ssl) skip_action(e, "nopeer");
         for (i = 0; i < bl; i++) body[i] = (unsigned char) (0x61 + (i % 26));
         if (hx && unhex(hx, body, bl) < 0) die("bad body hex");
         if (hst >= 0 && type == 22)
@@ -1463,7 +1485,7 @@ static void cmd_adv(char **tok, int ntok)
         /* replay <ep> <pos> <histidx>: a copy of the histidx-th record ep ever emitted */
         int h = atoi(tok[3]);
         if (h < 0) h += e->histn;
-        if (h < 0 || h >= e->histn) die("replay: history index out of range (%d)", e->histn);
+        if (h < 0 || h >= e->histn) skip_action(e, "history");
         {
             rec_t r = rec_make(e->hist[h].b, e->hist[h].n, 4);
             r.itype = e->hist[h].itype; r.imsg = e->hist[h].imsg; r.wsec = e->hist[h].wsec; r.kfp = e->hist[h].kfp; memcpy(r.seq, e->hist[h].seq, 8);
@@ -1477,7 +1499,7 @@ static void cmd_adv(char **tok, int ntok)
         int h = atoi(tok[2]);
         if (!e->peer) die("reflect: no peer");
         if (h < 0) h += e->histn;
-        if (h < 0 || h >= e->histn) die("reflect: history index out of range");
+        if (h < 0 || h >= e->histn) skip_action(e, "history");
         {
             rec_t r = rec_make(e->hist[h].b, e->hist[h].n, 5);
             r.itype = e->hist[h].itype; r.imsg = e->hist[h].imsg; r.wsec = e->hist[h].wsec; r.kfp = e->hist[h].kfp; memcpy(r.seq, e->hist[h].seq, 8);
@@ -1504,11 +1526,11 @@ static void cmd_hsedit(char **tok, int ntok)
     /* collect leading run of plaintext handshake records */
     for (i = 0; i < e->qn; i++)
     {
-        if (e->q[i].b[0] != 22) break;
+        if (e->q[i].b[0] != 22 || e->q[i].wsec || e->q[i].origin != 0) break;
         if (first < 0) first = i;
         last = i;
     }
-    if (first < 0) die("hsedit: no handshake records queued");
+    if (first < 0) skip_action(e, "nohs");
     {
         /* concatenate bodies */
         unsigned char *cat = malloc(1 << 17), vmaj = e->q[first].b[1], vmin = e->q[first].b[2];
@@ -1538,7 +1560,7 @@ static void cmd_hsedit(char **tok, int ntok)
     {
         const char *op = tok[2];
         int k = atoi(tok[3]);
-        if (k < 0 || k >= nm) die("hsedit: message index out of range (nm=%d)", nm);
+        if (k < 0 || k >= nm || (!strcmp(op, "swap") && (atoi(tok[4]) < 0 || atoi(tok[4]) >= nm))) op = "split";
         if (!strcmp(op, "del")) { rec_free(&msgs[k]); memmove(&msgs[k], &msgs[k + 1], sizeof(rec_t) * (nm - k - 1)); nm--; }
         else if (!strcmp(op, "dup")) { memmove(&msgs[k + 1], &msgs[k], sizeof(rec_t) * (nm - k)); msgs[k + 1] = rec_make(msgs[k].b, msgs[k].n, 1); nm++; }
         else if (!strcmp(op, "swap")) { int k2 = atoi(tok[4]); rec_t t; if (k2 < 0 || k2 >= nm) die("hsedit swap"); t = msgs[k]; msgs[k] = msgs[k2]; msgs[k2] = t; }
@@ -1616,7 +1638,12 @@ static void run_line(char *line)
     else if (!strcmp(tok[0], "del")) cmd_del(tok);
     else if (!strcmp(tok[0], "state")) cmd_state(tok);
     else if (!strcmp(tok[0], "autoflush")) ep_get(tok[1])->autoflush = atoi(tok[2]);
-    else if (!strcmp(tok[0], "hsedit")) cmd_hsedit(tok, ntok);
+    else if (!strcmp(tok[0], "hsedit"))
+    {
+        g_skip_armed = 1;
+        if (setjmp(g_skip) == 0) cmd_hsedit(tok, ntok);
+        g_skip_armed = 0;
+    }
     else if (!strcmp(tok[0], "mark")) { emit_begin(&g_out, "mark", NULL); sb_printf(&g_out, ",\"tag\":\"%s\"", ntok > 1 ? tok[1] : ""); emit_end(&g_out); }
     else if (!strcmp(tok[0], "reset"))
     {
@@ -1631,7 +1658,12 @@ static void run_line(char *line)
         sb_printf(&g_out, ",\"tag\":\"%s\"", ntok > 1 ? tok[1] : "");
         emit_end(&g_out);
     }
-    else cmd_adv(tok, ntok);
+    else
+    {
+        g_skip_armed = 1;
+        if (setjmp(g_skip) == 0) cmd_adv(tok, ntok);
+        g_skip_armed = 0;
+    }
 }
 
 int main(int argc, char **argv)
